@@ -11,6 +11,8 @@ definitions and elementary lemmas.  Core-only.
           member id 0 are never removed: `remove_members` skips `ref == 0`).
 `RemInv`  the same in the middle of `remove_members` of relation `q`: the non-removed elements
           of `q` are the members not yet processed (with multiplicity).
+`XInv`    all elements of a range carry the same handle; no object item of the stash is live
+          without a non-removed element referring to it.
 -/
 import Osmium.Lemmas.RelMgrInv
 
@@ -28,6 +30,13 @@ structure HInv (fixed : Bool) (SO : List Obj) (s : State) : Prop where
     e.h ≠ 0 ∧ stashGet s.stash e.h = some (.obj o)
   fresh : ∀ k, ∀ e ∈ s.getDb k, (k, e.mid) ∉ SO.map okey → e.h = 0
   gone : fixed = true → ∀ k, ∀ e ∈ s.getDb k, liveRefs (s.getDb k) e.mid = 0 → e.h = 0
+
+/-- all elements of a range carry the same handle; an object item of the stash is live only
+    while a non-removed element refers to it (nothing leaks) -/
+structure XInv (s : State) : Prop where
+  uniform : ∀ k, ∀ e ∈ s.getDb k, ∀ e' ∈ s.getDb k, e.mid = e'.mid → e.h = e'.h
+  noleak : ∀ h o, stashGet s.stash h = some (.obj o) →
+    ∃ k, ∃ e ∈ s.getDb k, e.h = h ∧ e.num.isSome = true
 
 def NumInv (s : State) : Prop :=
   ∀ k, ∀ e ∈ s.getDb k, e.num.isSome = (e.mid == 0 || !deadB s e.rpos)
@@ -63,6 +72,7 @@ structure LInv (Rm : Nat → Rel) (n : Nat) (base : Base) (fixed : Bool) (SO : L
   inv2 : Inv2 Rm n s
   skelEq : ∀ k, skel (s.getDb k) = base k
   hinv : HInv fixed SO s
+  xinv : XInv s
   num : NumInv s
   looks : LooksOK Rm fixed SO s.log
 
@@ -105,6 +115,13 @@ theorem stashGet_push (st : Stash) (x : Option Item) (h : Nat) (it : Item) (hg :
       · rw [Array.getElem?_eq_none hl] at hg; simp at hg
     rw [Array.getElem?_push, if_neg (by omega)]
     exact hg
+
+theorem stashGet_push_old (st : Stash) (x : Option Item) (h : Nat) (hne : h ≠ st.size + 1) :
+    stashGet (st.push x) h = stashGet st h := by
+  unfold stashGet
+  split
+  · rfl
+  · rw [Array.getElem?_push, if_neg (by omega)]
 
 theorem stashGet_push_new (st : Stash) (it : Item) : stashGet (st.push (some it)) (st.size + 1) = some it := by
   simp [stashGet]
@@ -191,6 +208,15 @@ theorem hinv_congr {fixed : Bool} {SO : List Obj} {s t : State} (h : HInv fixed 
   · intro k e he; rw [h3] at he ⊢; rw [h1]; exact h.live k e he
   · intro k e he; rw [h3] at he; exact h.fresh k e he
   · intro hf k e he; rw [h3] at he ⊢; exact h.gone hf k e he
+
+theorem xinv_congr {s t : State} (h : XInv s) (h1 : t.stash = s.stash) (h3 : ∀ k, t.getDb k = s.getDb k) :
+    XInv t := by
+  refine ⟨?_, ?_⟩
+  · intro k e he e' he'; rw [h3] at he he'; exact h.uniform k e he e' he'
+  · intro hh o hg
+    rw [h1] at hg
+    obtain ⟨k, e, he, h2⟩ := h.noleak hh o hg
+    exact ⟨k, e, by rw [h3]; exact he, h2⟩
 
 theorem numInv_congr {s t : State} (h : NumInv s) (h2 : t.rdb = s.rdb) (h3 : ∀ k, t.getDb k = s.getDb k) :
     NumInv t := by
